@@ -513,8 +513,10 @@ class Model:
             self.snapshot = (self.status, self.reason, self.H.copy())
         elif self.finished:
             return
-        if self.snapshot[0] == 304 and self.method != "HEAD" and chunk:
-            # a 304 has no body: HTTP1Connection refuses the bytes and closes
+        st = self.snapshot[0]
+        if (st in (204, 304) or 100 <= st < 200) and self.method != "HEAD" and chunk:
+            # such a response has no body: the only acceptable outcomes are that the bytes are
+            # refused (the op raises, the connection is closed) - never that they are sent
             raise ModelRaise("HTTPOutputError")
         self.body += chunk
 
